@@ -2785,3 +2785,290 @@ Proof.
     assert (X : existsb eval_tok (splice_toks (toks pcs) (map toks Rs)) = true)
       by (apply existsb_exists; eauto). congruence.
 Qed.
+
+(* ====================================================================== the Casbin-side reference lexer reads a
+   rendered layout back as the token list it was rendered from *)
+Lemma take_dotted_length : forall k s, (length (snd (take_dotted k s)) <= length s)%nat.
+Proof.
+  induction k as [|k IH]; intros s; [destruct s; simpl; lia|].
+  destruct s as [|c s']; [simpl; lia|]. cbn [take_dotted].
+  destruct c as [|p]; [simpl; lia|].
+  destruct (N.eq_dec (N.pos p) 46) as [E|E].
+  2:{ assert (X : take_dotted (S k) (N.pos p :: s') = ([], N.pos p :: s')).
+      { cbn [take_dotted]. do 6 (destruct p as [p|p|]; try reflexivity). congruence. }
+      cbn [take_dotted] in X. rewrite X. simpl. lia. }
+  inversion E; subst.
+  pose proof (span_length is_word s') as L1.
+  destruct (span is_word s') as [w r] eqn:S. simpl in L1.
+  destruct (hd_is is_alpha w); [|simpl; lia].
+  specialize (IH r). destruct (take_dotted k r) as [ws r']. simpl in *. lia.
+Qed.
+
+Lemma cb_one_shrinks : forall s t r, cb_lex_one s = Some (t, r) -> (length r < length s)%nat.
+Proof.
+  intros s t r H. destruct s as [|c s']; [discriminate|]. unfold cb_lex_one in H.
+  destruct (is_alpha c) eqn:Ea.
+  - pose proof (span_snd_cons is_word c s' (alpha_is_word _ Ea)) as E.
+    pose proof (span_length is_word s') as L1.
+    destruct (span is_word (c :: s')) as [w rest]. simpl in E. subst rest.
+    set (rest := snd (span is_word s')) in *.
+    destruct (str_eqb w s_eval && hd_is (N.eqb 40) rest).
+    + pose proof (span_length is_word (tl rest)) as L2. pose proof (length_tl rest) as L3.
+      destruct (span is_word (tl rest)) as [w2 rest2]. simpl in L2.
+      pose proof (take_dotted_length (length rest2) rest2) as L4.
+      destruct (take_dotted (length rest2) rest2) as [fs r3]. simpl in L4.
+      destruct fs as [|f [|f2 fs]]; try discriminate H.
+      destruct r3 as [|x r3]; try discriminate H.
+      destruct (N.eq_dec x 41) as [->|Nx].
+      * destruct (rp_form 112 w2); inversion H; subst. simpl in *. lia.
+      * exfalso. destruct x as [|p]; [discriminate H|].
+        do 6 (destruct p as [p|p|]; try discriminate H). congruence.
+    + destruct (hd_is (N.eqb 46) rest).
+      * pose proof (take_dotted_length (length rest) rest) as L4.
+        destruct (take_dotted (length rest) rest) as [fs r2]. simpl in L4.
+        destruct fs as [|f attrs]; [discriminate H|].
+        destruct (hd_is (N.eqb 46) r2); [discriminate H|].
+        destruct (rp_form 114 w); [inversion H; subst; simpl; lia|].
+        destruct (rp_form 112 w); [|discriminate H].
+        destruct attrs; inversion H; subst. simpl. lia.
+      * destruct (hd_is is_quote rest); inversion H; subst. simpl. lia.
+  - destruct (is_digit c) eqn:Ed.
+    + apply lex_int_shrinks in H; auto. simpl. lia.
+    + destruct (is_quote c).
+      * destruct (lex_string c s') as [[body rest]|] eqn:El; inversion H; subst.
+        apply lex_string_shrinks in El. simpl. lia.
+      * pose proof (length_tl s') as Lt.
+        destruct (c =? 38); [destruct (hd_is (N.eqb 38) s'); inversion H; subst; simpl; lia|].
+        destruct (c =? 124); [destruct (hd_is (N.eqb 124) s'); inversion H; subst; simpl; lia|].
+        destruct (c =? 33); [destruct (hd_is (N.eqb 61) s'); inversion H; subst; simpl; lia|].
+        apply lex_op_shrinks in H. simpl. lia.
+Qed.
+
+Definition Lc := cb_lex.
+
+Lemma Lc_blanks : forall a s, forallb is_blank a = true -> Lc (a ++ s) = Lc s.
+Proof. intros. apply lex_blanks; auto. Qed.
+
+Lemma Lc_tok : forall c s t r, is_blank c = false -> cb_lex_one (c :: s) = Some (t, r) ->
+  Lc (c :: s) = option_map (cons t) (Lc r).
+Proof. intros. apply lex_tok; auto. apply cb_one_shrinks. Qed.
+
+Lemma take_dotted_dots : forall attrs rest k, forallb good_name attrs = true ->
+  (length attrs <= k)%nat -> hd_is (N.eqb 46) rest = false -> hd_is is_word rest = false ->
+  take_dotted k (dots attrs ++ rest) = (attrs, rest).
+Proof.
+  induction attrs as [|a r IH]; intros rest k H Hk Hr Hw'.
+  - cbn [dots flat_map app]. destruct k; [destruct rest; reflexivity|].
+    destruct rest as [|c rest']; [reflexivity|]. cbn [hd_is] in Hr.
+    cbn [take_dotted]. destruct c as [|p]; [reflexivity|].
+    do 6 (destruct p as [p|p|]; try reflexivity). discriminate Hr.
+  - cbn [forallb] in H. apply andb_true_iff in H. destruct H as [Ha Hr'].
+    destruct k as [|k]; [simpl in Hk; lia|].
+    cbn [dots flat_map]. fold (dots r). cbn [app take_dotted]. rewrite <- app_assoc.
+    destruct (good_name_facts _ Ha) as (_ & Hw & Hal & _).
+    rewrite span_all; auto.
+    + rewrite Hal. rewrite IH; auto. simpl in Hk. lia.
+    + destruct r; [exact Hw' | reflexivity].
+Qed.
+
+Definition sepc (t : tok) (rest : str) : Prop :=
+  (ends_word t = true ->
+     hd_is is_word rest = false /\ hd_is is_quote rest = false /\ hd_is (N.eqb 46) rest = false)
+  /\ (opish t = true -> hd_is cmpchar rest = false).
+
+Lemma dots_length : forall l rest, (length l <= length (dots l ++ rest))%nat.
+Proof.
+  induction l as [|a r IH]; intros rest; [simpl; lia|].
+  cbn [dots flat_map]. fold (dots r). cbn [app length]. rewrite <- app_assoc, app_length.
+  specialize (IH rest). lia.
+Qed.
+
+Lemma rp_form_digits : forall l ds, forallb is_digit ds = true -> rp_form l (l :: ds) = true.
+Proof. intros. simpl. rewrite N.eqb_refl, H. reflexivity. Qed.
+
+Lemma cb_word : forall w rest, forallb is_word w = true -> hd_is is_alpha w = true ->
+  str_eqb w s_eval = false ->
+  hd_is is_word rest = false -> hd_is is_quote rest = false -> hd_is (N.eqb 46) rest = false ->
+  Lc (w ++ rest) = option_map (cons (if str_eqb w s_in then TIn else TId w)) (Lc rest).
+Proof.
+  intros w rest Hw Ha Hne Hr Hq Hd. destruct w as [|c w]; [discriminate|]. cbn [hd_is] in Ha.
+  cbn [app]. apply Lc_tok.
+  - apply (word_char_facts c). apply alpha_is_word; auto.
+  - unfold cb_lex_one. rewrite Ha.
+    change (c :: w ++ rest) with ((c :: w) ++ rest). rewrite span_all by auto.
+    rewrite Hne, Hd, Hq. reflexivity.
+Qed.
+
+Lemma Lc_str : forall dq s rest, forallb lit_char s = true ->
+  Lc (quote_of dq :: s ++ quote_of dq :: rest) = option_map (cons (TStr dq s)) (Lc rest).
+Proof.
+  intros dq s rest H. apply Lc_tok; [destruct dq; reflexivity|].
+  unfold cb_lex_one.
+  replace (is_alpha (quote_of dq)) with false by (destruct dq; reflexivity).
+  replace (is_digit (quote_of dq)) with false by (destruct dq; reflexivity).
+  replace (is_quote (quote_of dq)) with true by (destruct dq; reflexivity).
+  unfold lex_string. rewrite span_all.
+  - replace (forallb (fun c => negb ((c =? 92) || (c =? 10))) s) with true.
+    + destruct dq; reflexivity.
+    + symmetry. rewrite forallb_forall in *. intros c Hc. specialize (H c Hc).
+      destruct (lit_char_facts c H) as (_ & _ & -> & ->). reflexivity.
+  - rewrite forallb_forall in *. intros c Hc. specialize (H c Hc).
+    destruct (lit_char_facts c H) as (E1 & E2 & _). destruct dq; simpl; rewrite ?E1, ?E2; reflexivity.
+  - simpl. rewrite N.eqb_refl. reflexivity.
+Qed.
+
+Lemma Lc_int : forall ds rest, digits_ok ds = true ->
+  hd_is is_word rest = false -> hd_is (N.eqb 46) rest = false ->
+  Lc (ds ++ rest) = option_map (cons (TInt ds)) (Lc rest).
+Proof.
+  intros ds rest H Hr Hd. unfold digits_ok in H. apply andb_true_iff in H. destruct H as [H Hz].
+  apply andb_true_iff in H. destruct H as [Hne Hds]. apply negb_true_iff in Hz.
+  destruct ds as [|d ds]; [discriminate|]. cbn [forallb] in Hds.
+  apply andb_true_iff in Hds. destruct Hds as [Hd1 Hds].
+  cbn [app]. apply Lc_tok.
+  - apply (word_char_facts d). apply digit_is_word; auto.
+  - unfold cb_lex_one. rewrite (digit_not_alpha d Hd1), Hd1. unfold lex_int.
+    change (d :: ds ++ rest) with ((d :: ds) ++ rest).
+    rewrite span_all.
+    + rewrite Hr, Hd, Hz. reflexivity.
+    + simpl. rewrite Hd1, Hds. reflexivity.
+    + apply (hd_is_weaken is_word); auto. apply digit_is_word.
+Qed.
+
+Lemma Lc_text : forall rs ps t rest,
+  forallb is_digit rs = true -> forallb is_digit ps = true ->
+  wf_tok rs ps t = true -> casbin_tok t = true -> sepc t rest ->
+  Lc (text t ++ rest) = option_map (cons t) (Lc rest).
+Proof.
+  intros rs ps t rest Hrs Hps Hwf Hcb [Hw Hc].
+  destruct t; try discriminate Hcb; cbn [text].
+  - (* TAnd *) cbn [app]. apply Lc_tok; reflexivity.
+  - (* TOr *) cbn [app]. apply Lc_tok; reflexivity.
+  - (* TNot *) specialize (Hc eq_refl). pose proof (hd_cmpchar_eq _ Hc) as He.
+    cbn [app]. apply Lc_tok; [reflexivity|]. unfold cb_lex_one. cbn. rewrite He. reflexivity.
+  - (* TCmp *)
+    specialize (Hc eq_refl). pose proof (hd_cmpchar_eq _ Hc) as He. pose proof (hd_cmpchar_bad _ Hc) as Hb.
+    destruct c; cbn [app]; apply Lc_tok; try reflexivity.
+    + unfold cb_lex_one. cbn. unfold lex_op. cbn. rewrite He, Hb. reflexivity.
+    + unfold cb_lex_one. cbn. unfold lex_op. cbn. rewrite He, Hb. reflexivity.
+  - (* TIn *)
+    destruct (Hw eq_refl) as (H1 & H2 & H3).
+    rewrite (cb_word [105; 110] rest); auto.
+  - cbn [app]. apply Lc_tok; reflexivity.
+  - cbn [app]. apply Lc_tok; reflexivity.
+  - cbn [app]. apply Lc_tok; reflexivity.
+  - cbn [app]. apply Lc_tok; reflexivity.
+  - cbn [app]. apply Lc_tok; reflexivity.
+  - (* TReq *)
+    destruct (Hw eq_refl) as (H1 & H2 & H3).
+    simpl in Hwf. apply andb_true_iff in Hwf. destruct Hwf as [Hwf Hat].
+    apply andb_true_iff in Hwf. destruct Hwf as [Hs Hf]. apply str_eqb_eq in Hs. subst sfx.
+    cbn [app]. apply Lc_tok; [reflexivity|].
+    unfold cb_lex_one. replace (is_alpha 114) with true by reflexivity.
+    replace (114 :: (rs ++ 46 :: f ++ dots attrs) ++ rest)
+      with ((114 :: rs) ++ (dots (f :: attrs) ++ rest)).
+    2:{ cbn [dots flat_map app]. fold (dots attrs). rewrite <- !app_assoc. cbn [app].
+        rewrite <- !app_assoc. reflexivity. }
+    rewrite span_all; [| simpl; apply digits_are_words; auto | reflexivity].
+    replace (str_eqb (114 :: rs) s_eval) with false by reflexivity. cbn [andb].
+    replace (hd_is (N.eqb 46) (dots (f :: attrs) ++ rest)) with true by reflexivity.
+    rewrite take_dotted_dots; auto.
+    + rewrite H3. rewrite rp_form_digits by auto. reflexivity.
+    + cbn [forallb]. rewrite Hf, Hat. reflexivity.
+    + apply dots_length.
+  - (* TPol *)
+    destruct (Hw eq_refl) as (H1 & H2 & H3).
+    simpl in Hwf. apply andb_true_iff in Hwf. destruct Hwf as [Hs Hf]. apply str_eqb_eq in Hs. subst sfx.
+    cbn [app]. apply Lc_tok; [reflexivity|].
+    unfold cb_lex_one. replace (is_alpha 112) with true by reflexivity.
+    replace (112 :: (ps ++ 46 :: f) ++ rest) with ((112 :: ps) ++ (dots [f] ++ rest)).
+    2:{ cbn [dots flat_map app]. rewrite <- ?app_assoc. cbn [app]. rewrite <- ?app_assoc. reflexivity. }
+    rewrite span_all; [| simpl; apply digits_are_words; auto | reflexivity].
+    replace (str_eqb (112 :: ps) s_eval) with false by reflexivity. cbn [andb].
+    replace (hd_is (N.eqb 46) (dots [f] ++ rest)) with true by reflexivity.
+    rewrite take_dotted_dots; auto.
+    + rewrite H3. replace (rp_form 114 (112 :: ps)) with false by reflexivity.
+      rewrite rp_form_digits by auto. reflexivity.
+    + cbn [forallb]. rewrite Hf. reflexivity.
+    + apply dots_length.
+  - (* TEval *)
+    simpl in Hwf. apply andb_true_iff in Hwf. destruct Hwf as [Hs Hf]. apply str_eqb_eq in Hs. subst sfx.
+    replace ((s_eval_lp ++ 112 :: ps ++ 46 :: f ++ [41]) ++ rest)
+      with (101 :: ([118; 97; 108] ++ (40 :: (112 :: ps) ++ (dots [f] ++ 41 :: rest)))).
+    2:{ unfold s_eval_lp. cbn [dots flat_map app]. rewrite <- ?app_assoc. cbn [app].
+        rewrite <- ?app_assoc. cbn [app]. rewrite <- ?app_assoc. cbn [app]. reflexivity. }
+    apply Lc_tok; [reflexivity|].
+    unfold cb_lex_one. replace (is_alpha 101) with true by reflexivity.
+    change (101 :: [118; 97; 108] ++ 40 :: (112 :: ps) ++ dots [f] ++ 41 :: rest)
+      with ([101; 118; 97; 108] ++ 40 :: (112 :: ps) ++ dots [f] ++ 41 :: rest).
+    rewrite span_all; [| reflexivity | reflexivity].
+    replace (str_eqb [101; 118; 97; 108] s_eval) with true by reflexivity.
+    cbn [hd_is andb tl]. replace (40 =? 40) with true by reflexivity.
+    rewrite span_all; [| simpl; apply digits_are_words; auto | reflexivity].
+    rewrite take_dotted_dots; auto.
+    + rewrite rp_form_digits by auto. reflexivity.
+    + cbn [forallb]. rewrite Hf. reflexivity.
+    + apply dots_length.
+  - (* TStr *)
+    simpl in Hwf. unfold lit_ok in Hwf. apply andb_true_iff in Hwf. destruct Hwf as [Hwf _].
+    apply andb_true_iff in Hwf. destruct Hwf as [Hl _].
+    cbn [app]. rewrite <- app_assoc. cbn [app]. apply Lc_str; auto.
+  - (* TInt *)
+    destruct (Hw eq_refl) as (H1 & _ & H3). apply Lc_int; auto.
+  - (* TId *)
+    destruct (Hw eq_refl) as (H1 & H2 & H3). simpl in Hwf.
+    destruct (good_name_facts _ Hwf) as (_ & Hww & Ha & _ & _ & Hk).
+    rewrite cb_word; auto using good_not_eval.
+    rewrite (mem_false_neq s s_in py_keywords Hk) by (vm_compute; tauto). reflexivity.
+Qed.
+
+Lemma sepc_from_adm : forall rs ps a t b pcs,
+  adm ((a, t, b) :: pcs) = true -> forallb (wf_tok rs ps) (toks pcs) = true ->
+  sepc t (b ++ render_pieces pcs).
+Proof.
+  intros rs ps a t b pcs Hadm Hwf.
+  destruct (adm_cons _ _ _ _ Hadm) as (Ha & Hb & Hr & Hgap).
+  destruct b as [|c b].
+  2:{ destruct (hd_blank_facts (c :: b) (render_pieces pcs) Hb) as (A & B & C & D); [discriminate|].
+      split; intros; auto. }
+  cbn [app]. destruct pcs as [|[[a' t'] b'] r].
+  { split; intros; repeat split; reflexivity. }
+  rewrite render_cons. destruct (adm_cons _ _ _ _ Hr) as (Ha' & _).
+  destruct a' as [|c a'].
+  2:{ destruct (hd_blank_facts (c :: a') (text t' ++ b' ++ render_pieces r) Ha') as (A & B & C & D);
+        [discriminate|]. split; intros; auto. }
+  cbn [app]. cbn [toks map tok_of fst snd forallb] in Hwf. apply andb_true_iff in Hwf. destruct Hwf as [Hwt _].
+  pose proof (text_nonempty rs ps t' Hwt) as Hne.
+  unfold sepc. rewrite !hd_is_app_nonempty by auto.
+  destruct (hd_text_facts rs ps t' Hwt) as (A & B & C & D & _).
+  unfold gap_ok in Hgap. cbn [app nonempty orb] in Hgap.
+  apply andb_true_iff in Hgap. destruct Hgap as [G1 G2].
+  split.
+  - intro Hew. rewrite Hew in G1. cbn [andb] in G1. apply negb_true_iff in G1.
+    apply orb_false_iff in G1. destruct G1 as [G1a G1b]. rewrite A, B, C. auto.
+  - intro Hop. rewrite Hop in G2. cbn [andb] in G2. apply negb_true_iff in G2.
+    destruct (hd_is cmpchar (text t')) eqn:E; auto. rewrite (D eq_refl) in G2. discriminate.
+Qed.
+
+Theorem cb_lex_render : forall rs ps ts ws,
+  wf_tokens rs ps ts = true -> admissible ts ws = true -> cb_lex (render ts ws) = Some ts.
+Proof.
+  intros rs ps ts ws Hwf Hadm.
+  unfold wf_tokens in Hwf. apply andb_true_iff in Hwf. destruct Hwf as [Hwf Hts].
+  apply andb_true_iff in Hwf. destruct Hwf as [Hrs Hps].
+  unfold admissible in Hadm. apply andb_true_iff in Hadm. destruct Hadm as [Hlen Hadm].
+  apply Nat.eqb_eq in Hlen. pose proof (toks_mk_pieces ts ws Hlen) as Ht.
+  unfold render. rewrite <- Ht at 2. rewrite <- Ht in Hts. clear Ht Hlen.
+  generalize dependent (mk_pieces ts ws). clear ts ws.
+  induction l as [|[[a t] b] pcs IH]; intros Hts Hadm; [reflexivity|].
+  cbn [toks map tok_of fst snd forallb] in Hts. apply andb_true_iff in Hts. destruct Hts as [Ht Hts].
+  apply andb_true_iff in Ht. destruct Ht as [Hwt Hct].
+  assert (Hwf' : forallb (wf_tok rs ps) (toks pcs) = true).
+  { rewrite forallb_forall in *. intros x Hx. specialize (Hts x Hx).
+    apply andb_true_iff in Hts. destruct Hts; auto. }
+  pose proof (sepc_from_adm rs ps a t b pcs Hadm Hwf') as Hsep.
+  destruct (adm_cons _ _ _ _ Hadm) as (Ha & Hb & Hr & Hgap).
+  rewrite render_cons. change cb_lex with Lc. rewrite Lc_blanks by auto.
+  rewrite (Lc_text rs ps) by auto. rewrite Lc_blanks by auto.
+  change Lc with cb_lex. rewrite IH by auto. reflexivity.
+Qed.
